@@ -29,6 +29,7 @@ RULE = (
     "each; (f) removing any required section raises ValueError. Non-trivial iff >= 2 instrument tracks "
     "with a non-identity section order, or an unknown section is present (CRLF/BOM variants are run "
     "for every case); distinct = distinct (spec, order, unknown sections)."
+    " Added relations: one junk line in front of / between the real lines of every recognised section leaves the chart unchanged; instrument sections with an empty body still yield their (empty) track under their key; a missing required section is still missing when an unrecognised section's name contains the required name."
 )
 ASSUMPTIONS = [
     "BOM only through from_filepath (the property says 'when read by path'); no duplicate headers; no "
